@@ -784,6 +784,14 @@ pub fn gen_factor_file(rng: &mut Rng, carriers: &[String], hostile: bool, comple
             rows.push(format!("{}, RED, SUMINISTRO, A, {} # definición repetida", c, fmt(gen_factor_triplet(rng))));
         }
     }
+    // "my overrides first, the general table afterwards": every carrier defined (again) at the end with other
+    // values; the first definition of a factor is the one in force
+    if rng.chance(0.08) {
+        rows.push("# tabla general".into());
+        for c in ALL_CARRIERS {
+            rows.push(format!("{}, RED, SUMINISTRO, A, {} # tabla general", c, fmt(gen_factor_triplet(rng))));
+        }
+    }
     rows.join("\n") + "\n"
 }
 
